@@ -135,6 +135,8 @@ class Paint:
         p = Paint(s.kind, **{k: v for k, v in s.__dict__.items() if k != "kind"})
         if s.kind != "solid":
             p.M = T @ s.M
+            if hasattr(s, "Mpre"):
+                p.Mpre = T @ s.Mpre
         return p
 
     def _stops(s, fg):
@@ -145,7 +147,8 @@ class Paint:
         return stops
 
     def tvals(s, pts, **override):
-        q = apply(np.linalg.inv(s.M), np.asarray(pts, float))
+        M = override.pop("M", s.M)
+        q = apply(np.linalg.inv(M), np.asarray(pts, float))
         g = dict(s.__dict__)
         g.update(override)
         if s.kind == "linear":
@@ -174,6 +177,12 @@ class Paint:
         base = s.tvals(pts)
         tot = np.zeros(len(pts))
         for name, q in s.quanta.items():
+            if name == "G":  # decimal gradientTransform entries: M = Mpre @ G
+                for (i, j) in ((0, 0), (1, 0), (0, 1), (1, 1), (0, 2), (1, 2)):
+                    G = s.G.copy()
+                    G[i, j] += q / 2
+                    tot += np.nan_to_num(np.abs(s.tvals(pts, M=s.Mpre @ G) - base), nan=0.0)
+                continue
             v = getattr(s, name)
             if isinstance(v, tuple):
                 for i in range(len(v)):
